@@ -19,16 +19,19 @@ theorem c14_socks5_roundtrip (a : Addr) (tail : Bytes) (h : a.Accepted) :
       Buf.getU8_cons, Res.bind_ok, List.append_assoc]
     have hl : (u8 host.length).toNat = host.length := u8_toNat_lt _ (by omega)
     simp [hl, Buf.take_append, Buf.getU16_be16 p tail h3]
+    omega
   | v4 ip p =>
     obtain ⟨h1, h2⟩ := h
     simp only [Socks5Addr.encode, Socks5Addr.decode, List.cons_append, List.nil_append,
       Buf.getU8_cons, Res.bind_ok, List.append_assoc]
     simp [Buf.take_append' 4 ip _ h1, Buf.getU16_be16 p tail h2]
+    omega
   | v6 ip p =>
     obtain ⟨h1, h2⟩ := h
     simp only [Socks5Addr.encode, Socks5Addr.decode, List.cons_append, List.nil_append,
       Buf.getU8_cons, Res.bind_ok, List.append_assoc]
     simp [Buf.take_append' 16 ip _ h1, Buf.getU16_be16 p tail h2]
+    omega
 
 /-- the advertised length is the encoded length (used to size buffers and to find the end of the
 Trojan header) -/
@@ -75,6 +78,15 @@ theorem c14_vmess_roundtrip (utf8Ok : Bytes → Bool) (a : Addr) (tail : Bytes) 
     simp only [VmessAddr.read, List.append_assoc, Buf.getU16_be16 p _ h2, Res.bind_ok,
       List.cons_append, List.nil_append, Buf.getU8_cons]
     simp [Buf.take_append' 16 ip _ h1]
+
+/-- the SOCKS5-form decoder never panics, whatever bytes it is given (C07 for this parser) -/
+theorem c14_socks5_decode_total (b : Bytes) : Socks5Addr.decode b ≠ .panic := by
+  unfold Socks5Addr.decode
+  cases b with
+  | nil => simp
+  | cons t b =>
+    simp only [Buf.take, Buf.getU16, Buf.getBE, Buf.getU8, bind, Res.bind, pure]
+    grind
 
 /-- Why the admission guard is needed: the encoders alone do **not** round-trip an over-long name
 (the length byte is truncated mod 256) — a 256-byte name decodes as an *empty* name whose "port" and
